@@ -25,10 +25,10 @@ From FV.C02 Require Import Safe LiveCheck.
 
 (* one instance: the recorded history is a run of the model, the graph is safe for the listed
    pairs (each pair = two jobs that touched the same context item, one of them writing, in the
-   order observed), the graph can never get stuck (live_graph, ranks from the launch order) and its handlers never panic (calm_graph) *)
+   order observed), the graph can never get stuck (live_graph, ranks = a layering of the graph's constraints supplied by the harness) and its handlers never panic (calm_graph) *)
 Definition check_instance (G : graph) (trace : list event) (order : list N)
-           (pairs hpairs : list (N * N)) : bool :=
-  replay_ok G trace && safe_graph G order pairs && live_instance G order && calm_graph G.
+           (pairs hpairs ranks : list (N * N)) : bool :=
+  replay_ok G trace && safe_graph G order pairs && live_ranked G ranks && calm_graph G.
 
 (* the pairs safe_graph cannot certify (diagnostics) *)
 Definition failing_pairs (G : graph) (order : list N) (pairs : list (N * N)) : list (N * N) :=
